@@ -7,9 +7,9 @@ namespace ccl::oss {
 
 std::optional<src::DataType> 
 RSSProcessor::ResultingTypeFor(ops::Type /*operation*/, const ops::ArgsInfo& args) const {
-  assert(ssize(args) == 2);
-
-  if (std::any_of(begin(args), end(args),
+  if (ssize(args) != 2) {
+    return std::nullopt; // Note: a loaded operation may have lost an operand
+  } else if (std::any_of(begin(args), end(args),
                   [](const auto& arg)
                   { return arg != src::DataType::rsSchema; })) {
     return std::nullopt;
